@@ -157,17 +157,25 @@ class Executor(ResolutionContext):
             parent_value, self.context_value, info
         )
 
+        ended = False
+
+        def end():
+            # `fail` can run after `complete` (when completing the value
+            # raises a ResolverError): the end hook must fire only once.
+            nonlocal ended
+            if not ended:
+                ended = True
+                self.instrumentation.on_field_end(
+                    parent_value, self.context_value, info
+                )
+
         def fail(err):
             self.add_error(err, path, node)
-            self.instrumentation.on_field_end(
-                parent_value, self.context_value, info
-            )
+            end()
             return None
 
         def complete(res):
-            self.instrumentation.on_field_end(
-                parent_value, self.context_value, info
-            )
+            end()
             return self.complete_value(
                 field_definition.type, nodes, path, info, res
             )
